@@ -12,6 +12,13 @@ From Coq Require Import ZArith PrimFloat Uint63 FloatOps SpecFloat.
 From FEC Require Import Generated.HeadingConsts.   (* Heading_pi : math.pi of the implementation's interpreter *)
 Open Scope float_scope.
 
+(* The binary64 value (-1)^s * r * 2^e, for r of at most 53 bits and e >= -1074, in canonical form
+   (mantissa shifted left until it has 53 bits or the exponent reaches -1074), so that no rounding is involved. *)
+Definition Heading_canon (s : bool) (r : positive) (e : Z) : float :=
+  let k := Z.min (prec - Zpos (digits2_pos r)) (e - (3 - emax - prec)) in
+  if (k <? 0)%Z then nan                               (* unreachable from Heading_fmod: r has <= 53 bits *)
+  else let '(m', e') := shl_align r e (e - k) in SF2Prim (S754_finite s m' e').
+
 (* C fmod, through exact integer arithmetic on mantissa and exponent. *)
 Definition Heading_fmod (a b : float) : float :=
   match Prim2SF a, Prim2SF b with
@@ -26,7 +33,7 @@ Definition Heading_fmod (a b : float) : float :=
       let B := (Zpos mb * 2 ^ (eb - e))%Z in          (* |b| = B * 2^e *)
       match (A mod B)%Z with                           (* |a| mod |b|, in units of 2^e; sign of a restored *)
       | Z0 => if sa then neg_zero else zero
-      | Zpos r => SF2Prim (S754_finite sa r e)
+      | Zpos r => Heading_canon sa r e
       | Zneg _ => nan                                  (* unreachable: A mod B >= 0 for B > 0 *)
       end
   end.
